@@ -202,7 +202,7 @@ class Ctx:
 
         fn = fn or self.mod.SUBS[sub]
         holder = {}
-        phases = [Phase.explicit, Phase.generate, Phase.target]
+        phases = [Phase.explicit, Phase.generate]  # no Phase.target: its hill climber can spin for hours on cached simulations without running a test (seen in C01/C15 thorough)
         if shrink is None:
             shrink = True
         if shrink:
